@@ -15,7 +15,7 @@ Lemma un_loadNames n ts : p_loadNames (parsers (S n)) ts = loadNames_body (parse
 Lemma un_file n ts : p_file (parsers (S n)) ts = file_body (parsers n) ts. Proof. reflexivity. Qed.
 
 (* what may follow a small statement *)
-Definition stop_small (t : tok) : bool := match t with SEMI | NEWLINE => true | _ => false end.
+Definition stop_small (t : tok) : bool := match t with SEMI | NEWLINE | EOF => true | _ => false end.
 
 Lemma stop_small_props t : stop_small t = true ->
   stop_test t = true /\ t <> COMMA /\ is_augassign t = false.
@@ -168,6 +168,34 @@ Proof.
     cbn [forallb] in Hall. apply andb_true_iff in Hall. destruct Hall as [Hs2 _].
     pose proof (smalls_head (s2 :: l) ((if sm then [semi] else []) ++ [newline] ++ rest) Hl) as Hpk.
     rewrite <- !app_assoc in IH. cbn [app] in IH, Hpk.
+    unfold line_head in Hpk.
+    match type of Hpk with match ?t with _ => _ end = true => destruct t eqn:E; try discriminate Hpk end;
+      rewrite IH; reflexivity.
+Qed.
+
+(* the last line of a file may lack its NEWLINE (grammar.txt: "'\n' optional at EOF");
+   at top level the scanner then emits EOF directly *)
+Lemma simple_line_eof_ok l : forall (sm : bool) (p : pos) (n : nat),
+  line_ok l = true ->
+  40 * lsize l + 41 <= n ->
+  p_simpleStmt (parsers n) (smalls_tokens l ++ (if sm then [semi] else []) ++ [(EOF, p)]) = Ok (l, [(EOF, p)]).
+Proof.
+  unfold line_ok.
+  induction l as [|s l IH]; intros sm p n Hok Hn; [discriminate|].
+  cbn [nonempty andb forallb] in Hok. apply andb_true_iff in Hok. destruct Hok as [Hs Hall].
+  rewrite lsize_cons in Hn. pose proof (ssize_pos s) as Hp.
+  destruct n as [|n]; [lia|]. rewrite un_simpleStmt. unfold simpleStmt_body.
+  destruct l as [|s2 l].
+  - cbn [smalls_tokens].
+    rewrite (small_stmt_ok s); [|assumption|destruct sm; reflexivity|cbn [lsize fold_right] in Hn; lia].
+    destruct sm; cbn [app peek peekpos tl semi]; unfold finishSimple; reflexivity.
+  - change (smalls_tokens (s :: s2 :: l)) with (small_tokens s ++ semi :: smalls_tokens (s2 :: l)).
+    rewrite <- !app_assoc. cbn [app].
+    rewrite (small_stmt_ok s); [|assumption|reflexivity|lia].
+    cbn [peek peekpos tl semi].
+    assert (Hl : nonempty (s2 :: l) && forallb small_ok (s2 :: l) = true) by exact Hall.
+    specialize (IH sm p n Hl ltac:(lia)).
+    pose proof (smalls_head (s2 :: l) ((if sm then [semi] else []) ++ [(EOF, p)]) Hl) as Hpk.
     unfold line_head in Hpk.
     match type of Hpk with match ?t with _ => _ end = true => destruct t eqn:E; try discriminate Hpk end;
       rewrite IH; reflexivity.
